@@ -1516,7 +1516,12 @@ def m_bincode_de(eng, call, args):
        "std::fmt::rt::Argument::<'_>::new_lower_hex")
 def m_fmt_arg(eng, call, args):
     kind = call["norm_names"][0].split("::")[-1]
-    return mk("fmtarg", kind, val(eng, call, args[0]))
+    v = val(eng, call, args[0])
+    n = 0
+    while is_t(v) and v.op in ("ref", "refv", "refo") and n < 4:
+        v = val(eng, call, v)          # Display / Debug of &T are those of T
+        n += 1
+    return mk("fmtarg", kind, v)
 
 
 @model("std::fmt::Arguments::<'a>::new")
@@ -1741,6 +1746,8 @@ def m_first_last(eng, call, args):
 
 @model("std::collections::hash_map::Entry::<'a, K, V>::or_default", "std::collections::hash_map::Entry::<'a, K, V>::or_insert",
        "std::collections::hash_map::Entry::<'a, K, V>::or_insert_with",
+       "std::collections::hash_map::Entry::<'a, K, V, A>::or_default", "std::collections::hash_map::Entry::<'a, K, V, A>::or_insert",
+       "std::collections::hash_map::Entry::<'a, K, V, A>::or_insert_with",
        "std::collections::btree_map::Entry::<'a, K, V, A>::or_default", "std::collections::btree_map::Entry::<'a, K, V, A>::or_insert",
        "std::collections::btree_map::Entry::<'a, K, V, A>::or_insert_with")
 def m_entry_or(eng, call, args):
